@@ -500,6 +500,52 @@ fn ark_extras<F: FL>(ctx: &Ctx, rec: &mut Rec) {
             }
         }
     });
+    // decimal strings built around the overflow boundaries of word-wise digit accumulation: the digits of
+    // MAX/10 and MAX for u32 / u64 / u128 / i64 followed by each of 0, 5, 6, 9, at every digit offset, after a
+    // prefix of 9s, of 1 followed by 0s, of 1 followed by 9s (greedy packing aligns differently after each),
+    // followed by filler digits; value = the integer the digits denote, reduced mod p
+    rec.declare_class("decimal word boundary");
+    {
+        let boundaries: Vec<String> = vec![
+            (u64::MAX / 10).to_string(), u64::MAX.to_string(), (u32::MAX / 10).to_string(), u32::MAX.to_string(),
+            (u128::MAX / 10).to_string(), u128::MAX.to_string(), (i64::MAX / 10).to_string(), i64::MAX.to_string(), (1u128 << 64).to_string(),
+        ];
+        let maxlen = (f.bits * 30103 / 100000) + 24;
+        let mut strings: Vec<String> = Vec::new();
+        for bd in &boundaries {
+            for last in ["0", "5", "6", "9", ""] {
+                for o in 0..maxlen.saturating_sub(bd.len()) {
+                    for kind in 0..3 {
+                        let prefix: String = (0..o).map(|k| match (kind, k) { (0, _) => '9', (1, 0) | (2, 0) => '1', (1, _) => '0', _ => '9' }).collect();
+                        for tail in ["", "31415926535897932384"] {
+                            strings.push(format!("{prefix}{bd}{last}{tail}"));
+                        }
+                    }
+                }
+            }
+        }
+        rec.count("decimal word-boundary strings", strings.len() as u64);
+        par(rec, |w, nw, rec| {
+            for (i, st) in strings.iter().enumerate() {
+                if i % nw != w {
+                    continue;
+                }
+                rec.class("decimal word boundary");
+                rec.form(&nm("FromStr"));
+                rec.eval(&(F::NAME, "decimal-boundary", st.clone()), false);
+                let want = B::parse_bytes(st.as_bytes(), 10).expect("digits") % &f.p;
+                let st2 = st.clone();
+                match guarded(|| F::from_str(&st2).ok().map(|x| x.to_b())) {
+                    Err(pn) => rec.violation(format!("{P}:{}:panic", nm("FromStr")), format!("FromStr panicked on the digits {st}: {pn}"), json!({"digits": st})),
+                    Ok(got) => {
+                        if got.as_ref() != Some(&want) {
+                            rec.violation(format!("{P}:{}:wrong-value", nm("FromStr")), format!("FromStr of the digits {st} gives {:?}, expected {}", got.as_ref().map(hexs), hexs(&want)), json!({"digits": st}));
+                        }
+                    }
+                }
+            }
+        });
+    }
 }
 
 pub fn run(ctx: &Ctx, rec: &mut Rec) {
